@@ -63,7 +63,7 @@ def cases(rng, tier, X):
             ops.append('rx 1 ' + F.query(mapper, b, rng.randrange(1, 65536)))
         out.append(('cap%d' % k, ops))
     # universal traffic (every frame type / sender / path / service / boundary value, 1..3 interfaces): this check's predicate on it
-    for k in range(60 if tier == 'quick' else 6000):
+    for k in range(150 if tier == 'quick' else 6000):
         out.append(('u%d' % k, F.universal(rng)))
     return out
 
